@@ -20,16 +20,19 @@ type Value interface{}
 type Loc interface{}
 
 type ScalarLoc struct {
-	V Value
-	T types.Type
+	V  Value
+	T  types.Type
+	ID int
 }
 type StructLoc struct {
-	F []Loc
-	T types.Type
+	F  []Loc
+	T  types.Type
+	ID int
 }
 type ArrayLoc struct {
 	E    []Loc
 	Elem types.Type
+	ID   int
 }
 
 // Pointer: L != nil is a direct pointer; Arr != nil is a pointer to element Idx (symbolic) of
@@ -70,6 +73,8 @@ type ChanObj struct {
 	Buf    []Value
 	Closed bool
 	ElemT  types.Type
+	ID     int
+	Count  *T // interleaving mode: symbolic occupancy of a token channel (chan struct{})
 }
 type ChanRef struct{ C *ChanObj }
 
@@ -194,6 +199,7 @@ func (x *X) zeroLoc(t types.Type) Loc {
 	switch u := t.Underlying().(type) {
 	case *types.Struct:
 		sl := &StructLoc{F: make([]Loc, u.NumFields()), T: t}
+		x.regLoc(sl, &sl.ID)
 		for i := range sl.F {
 			sl.F[i] = x.zeroLoc(u.Field(i).Type())
 		}
@@ -201,7 +207,20 @@ func (x *X) zeroLoc(t types.Type) Loc {
 	case *types.Array:
 		return x.newArray(u.Elem(), int(u.Len()))
 	}
-	return &ScalarLoc{V: x.zeroValue(t), T: t}
+	sc := &ScalarLoc{V: x.zeroValue(t), T: t}
+	x.regLoc(sc, &sc.ID)
+	return sc
+}
+
+// regLoc gives a location its allocation-order id (stable across re-executions of the same
+// deterministic prefix; used by the interleaving mode to name shared cells and pointers).
+func (x *X) regLoc(l Loc, id *int) {
+	if x.bmc == nil {
+		return
+	}
+	x.locSeq++
+	*id = x.locSeq
+	x.locByID = append(x.locByID, l)
 }
 
 func (x *X) newArray(elem types.Type, n int) *ArrayLoc {
@@ -209,10 +228,13 @@ func (x *X) newArray(elem types.Type, n int) *ArrayLoc {
 		x.unsupported(fmt.Sprintf("array of %d elements", n))
 	}
 	al := &ArrayLoc{E: make([]Loc, n), Elem: elem}
+	x.regLoc(al, &al.ID)
 	if termElem(elem) {
 		z := x.zeroValue(elem)
 		for i := range al.E {
-			al.E[i] = &ScalarLoc{V: z, T: elem}
+			sc := &ScalarLoc{V: z, T: elem}
+			x.regLoc(sc, &sc.ID)
+			al.E[i] = sc
 		}
 		return al
 	}
